@@ -498,6 +498,8 @@ func runC05(cfg Config, r *Result) {
 		"(undeclared variable, unused variable, redeclaration in the same scope, type mismatch, wrong argument count, unknown function, missing return, " +
 		"unreachable code after return/break, break outside a loop, value returned from a handler/procedure, stray text after a statement, stray text after `end`) " +
 		"x applicable positions (statement boundaries at every block nesting: top level, if/else, while, for, func, on; quick: 2 random positions per rule and program, thorough: all); " +
+		"scope trees: random trees of if / else-if / else chains, loops, function and handler bodies with one declaration and a read of it at every position where it is not in scope " +
+		"(later / earlier sibling branch, else-if and while conditions, after / before the enclosing block, unrelated blocks); " +
 		"one rule-breaking edit per mutant; every mutant is non-trivial; distinct = distinct mutant text"
 	bin, cleanup, err := fmBuildEvy()
 	if err != nil {
@@ -569,6 +571,21 @@ func runC05(cfg Config, r *Result) {
 		r.Dist("base:return-tree-accepted")
 	}
 	for _, m := range rtMut {
+		c05Check(c, m, "")
+	}
+	// scope trees (harness/c05scope.go): a read of a variable at every position relative to its declaration
+	scValid, scMut := c05ScopeMutants(cfg, cfg.N(250, 2000))
+	for _, p := range scValid {
+		if _, err := safeParse(p); err != nil {
+			r.Dist("base:scope-tree-rejected")
+			if r.Distribution["base:scope-tree-rejected"] == 1 {
+				r.Note("first rejected scope-tree base: %s\n%s", truncKey(err.Error(), 200), p)
+			}
+			continue
+		}
+		r.Dist("base:scope-tree-accepted")
+	}
+	for _, m := range scMut {
 		c05Check(c, m, "")
 	}
 	for _, p := range progs {
